@@ -818,7 +818,7 @@ impl<'p, W, R, T> CompilationScope<'p, W, R, T> {
                                         {
                                             return Ok(XExpr::Variant(
                                                 spec.clone(),
-                                                bind,
+                                                bind.with_unbound_as_unknown(&spec.generic_names),
                                                 index,
                                                 Box::new(compiled_arg),
                                             ));
